@@ -139,6 +139,39 @@ func (g *g14) inRange(e ast.Expr, depth int) bool {
 			if g.getIndex[f] {
 				return true
 			}
+			// a helper of the balancer that is given n and returns only in-range values with respect to it
+			// (weightedPick(weights, n, point): `return i` inside `for i := 0; i < n; i++`, `return n - 1`)
+			if d, cpkg := g.p.calleeDecl(g.info, x); d != nil && cpkg.TypesInfo == g.info && g.depth < 2 && d.Body != nil {
+				h := &g14{p: g.p, info: g.info, body: d.Body, getIndex: g.getIndex, depth: g.depth + 1}
+				h.prepare()
+				params := paramsOf(g.info, d.Type)
+				bound := false
+				for i, a := range x.Args {
+					if i < len(params) && params[i] != nil && g.isN(a) {
+						h.nObjs[params[i]] = true
+						bound = true
+					}
+				}
+				if bound {
+					h.prepare2()
+					okRet, nRet := true, 0
+					ast.Inspect(d.Body, func(m ast.Node) bool {
+						if _, isLit := m.(*ast.FuncLit); isLit {
+							return false
+						}
+						if ret, ok := m.(*ast.ReturnStmt); ok {
+							nRet++
+							if len(ret.Results) != 1 || !h.inRange(ret.Results[0], depth+1) {
+								okRet = false
+							}
+						}
+						return true
+					})
+					if okRet && nRet > 0 {
+						return true
+					}
+				}
+			}
 		}
 	case *ast.IndexExpr: // candidate[k]
 		s := identObj(g.info, x.X)
@@ -884,6 +917,18 @@ func ruleP7(r *Run) {
 				}
 				return true
 			})
+			// ... or the sweep written in place: the table swapped out and every entry of it sent to
+			if !sweeps {
+				if pk := p.Pkg(tr); pk != nil {
+					sv := sweptValue(pk.TypesInfo, fd.Body)
+					ast.Inspect(fd.Body, func(m ast.Node) bool {
+						if ss, ok := m.(*ast.SendStmt); ok && sv[identObj(pk.TypesInfo, ss.Chan)] {
+							sweeps = true
+						}
+						return true
+					})
+				}
+			}
 			r.Check(sweeps, tr+".conn.Close fails every pending call", fd.Pos(), "rangeAndClean(send error)", "Close no longer sweeps the pending table: callers waiting on a lost connection wait for their deadline")
 		}
 	}
